@@ -651,6 +651,11 @@ func (m *Master) reply(t *SimTask, v interface{}) {
 }
 
 func (m *Master) message(fw string, msg *scheduler.Call_Message) bool {
+	// a MESSAGE call must name the agent and the executor it is for (the master validates the call)
+	if msg.AgentID.Value == "" || msg.ExecutorID.Value == "" {
+		m.rec("MMessageRefused", "agent", msg.AgentID.Value, "executor", msg.ExecutorID.Value)
+		return false
+	}
 	var head struct {
 		Name       string                               `json:"name"`
 		TargetList []controlcommands.MesosCommandTarget `json:"targetList"`
